@@ -774,7 +774,60 @@ func C09KeysetChild(from int) {
 		ks := rp.NewRemoteKeySet(hc, "https://evil.sim/keys")
 		_, _ = ks.VerifySignature(context.Background(), jws)
 	}
-	fmt.Printf("DONE %d\n", len(answers))
+	// late answers: the only caller gives up while the JWKS request is outstanding (cancellation or deadline), the
+	// answer - whatever it is - arrives afterwards, and a second caller comes by. Nothing of this may take the
+	// process down. (This child runs outside any bubble: real goroutines, real time.)
+	for i := max(from, len(answers)); i < 2*len(answers); i++ {
+		fmt.Printf("CASE %d\n", i)
+		a := answers[i-len(answers)]
+		g := &gatedAnswer{h: &a, entered: make(chan struct{}, 4), release: make(chan struct{})}
+		n.Hosts["evil.sim"] = g
+		ks := rp.NewRemoteKeySet(hc, "https://evil.sim/keys")
+		ctx, cancel := context.WithCancel(context.Background())
+		if i%2 == 1 {
+			ctx, cancel = context.WithTimeout(context.Background(), 2*time.Millisecond)
+		}
+		done := make(chan struct{})
+		go func() {
+			_, _ = ks.VerifySignature(ctx, jws)
+			close(done)
+		}()
+		select {
+		case <-g.entered:
+		case <-time.After(2 * time.Second):
+		}
+		cancel()
+		<-done
+		late := make(chan struct{})
+		go func() { // a second caller arrives while the abandoned download is still outstanding
+			c2, cancel2 := context.WithTimeout(context.Background(), 200*time.Millisecond)
+			defer cancel2()
+			_, _ = ks.VerifySignature(c2, jws)
+			close(late)
+		}()
+		time.Sleep(time.Millisecond)
+		close(g.release)
+		<-late
+		time.Sleep(time.Millisecond) // let the download goroutine finish its bookkeeping
+	}
+	n.Hosts["evil.sim"] = h
+	fmt.Printf("DONE %d\n", 2*len(answers))
+}
+
+// gatedAnswer holds a hostile answer back until it is released (a slow JWKS endpoint).
+type gatedAnswer struct {
+	h       http.Handler
+	entered chan struct{}
+	release chan struct{}
+}
+
+func (g *gatedAnswer) ServeHTTP(w http.ResponseWriter, r *http.Request) {
+	select {
+	case g.entered <- struct{}{}:
+	default:
+	}
+	<-g.release
+	g.h.ServeHTTP(w, r)
 }
 
 // keysetCasesInChild drives the child process and reports crashes as violations.
